@@ -22,6 +22,10 @@ Inductive resolves (C : cfg) (d : dir) (n : name) : path -> Prop :=
 | res_file : file_exists C (d, n) = true -> resolves C d n (d, n)
 | res_dir : file_exists C (d, n) = false -> file_exists C (d ++ [n], MAIN) = true -> resolves C d n (d ++ [n], MAIN).
 
+(* the file at p does not compile *)
+Definition file_broken (C : cfg) (p : path) : bool :=
+  broken (match file_get p (files C) with Some b => b | None => [] end).
+
 (* the exported value of k in the active exports map *)
 Definition exported (s : st) (k : name) : option value := al_get k (m_data (cur_obj s)).
 
